@@ -76,6 +76,13 @@ func (t *Taint) get(v ssa.Value) Label {
 
 // FieldLabel returns the label of field k of a struct-typed value.
 func (t *Taint) FieldLabel(v ssa.Value, k int) Label {
+	if t.fieldSrc != nil {
+		if _, isParam := v.(*ssa.Parameter); !isParam {
+			if l, ok := t.fieldSrc(v, k); ok {
+				return l | t.val[v]
+			}
+		}
+	}
 	switch x := v.(type) {
 	case *ssa.UnOp:
 		if x.Op == token.MUL {
